@@ -24,11 +24,12 @@ THEOREMS = ["C12_psin_nonneg", "C12_psin_is_normalised_flux_partial", "C12_map2d
             "C12_psin_code_order", "C12_zero_speed_components", "C12_unit_speeds_give_basis", "C12_blends_are_selections",
             "C12_components_with_approximate_sqrt", "C12_real_basis_orthonormal", "C12_real_velocity_components",
             "C12_profile_array_policy", "C12_lcfs_mask_with_polygon", "C12_fast_evaluators_equal_model",
-            "C12_source_patterns_cover_all_vectors"]
+            "C12_source_patterns_cover_all_vectors", "C12_model_real_bridge", "C12_model_rotation_is_real_rotation",
+            "C12_array_profile_through_knots", "C12_cubic_profile_affine"]
 
 CODE_OF = {"accepted": 0, "IndexError": 1, "ValueError": 2}
 
-STAGES = {1: "psi_normalised", 2: "inside_lcfs", 3: "map2d", 4: "map3d", 5: "b_field", 6: "toroidal_vector",
+STAGES = {93: "sqrt argument (harness)", 94: "libm sqrt not correctly rounded", 1: "psi_normalised", 2: "inside_lcfs", 3: "map2d", 4: "map3d", 5: "b_field", 6: "toroidal_vector",
           7: "poloidal_vector", 8: "surface_normal", 9: "map_vector2d", 10: "map_vector3d",
           90: "oracle table inconsistent (harness)", 91: "sqrt(x*x+y*y) differs from the harness's (harness)"}
 
@@ -55,7 +56,7 @@ def case_text(E, PS, o):
              qlit(o["psin"]), qlit(o["inside"]), qlit(o["map2d"]), qlit(o["map3d"]),
              vlit(o["b"]), vlit(o["tor"]), vlit(o["pol"]), vlit(o["nor"]), vlit(o["v2"]), vlit(o["v3"]),
              "%d%%Z" % o["skip"]]
-    return "check_case (C12case " + " ".join(parts) + ")"
+    return "(C12case " + " ".join(parts) + ")"
 
 
 def finite(o):
@@ -71,7 +72,10 @@ def run(ctx):
     ctx.trusted += [
         "Coq 8.16.1 kernel, vm_compute (no native_compute)",
         "axioms of Coq.Reals (ClassicalDedekindReals.sig_forall_dec, sig_not_dec, functional_extensionality_dep) under the two "
-        "C12_real_* theorems only; every other theorem is closed under the global context",
+        "C12_real_* theorems and the two bridge theorems (C12_model_real_bridge, C12_model_rotation_is_real_rotation) only; every other "
+        "theorem is closed under the global context",
+        "read-only imports from other properties: Model/C07_Cubic.v + Proofs/C07_Cubic.v (raysect 1-D cubic and its knot theorem), "
+        "Model/C07_Rates.v (increasingq), Model/C11_Round.v (binary64 round-to-nearest-even on rationals, used by the exact replay)",
         "harness/c12_translate.py (regular expressions over efit.pyx, fail-closed) and the classifier coq_parg of profile arguments",
         "harness/c12.py, harness/c12_eq.py: equilibrium and point generators, one-entry function tables, Q literal printer, "
         "comparator Model/C12_Check.v (tolerances below), reference point-in-polygon test of the search",
@@ -88,7 +92,7 @@ def run(ctx):
         "inside the LCFS = inside the LCFS polygon and psi_n <= 1 (the definition used by EFITLCFSMask)",
     ]
     ctx.rebuild()
-    ctx.proofs("Properties.C12", THEOREMS, extra_modules=("Model.C12_Check", "Model.C12_Interp", "Model.C12_Profile", "Model.C12_Polygon", "Model.C12_Source"))
+    ctx.proofs("Properties.C12", THEOREMS, extra_modules=("Model.C12_Check", "Model.C12_Interp", "Model.C12_Profile", "Model.C12_Polygon", "Model.C12_Source", "Model.C12_Exact", "Model.C12_Cubic"))
 
     import cherab
     from common import REPO
@@ -134,8 +138,8 @@ def run(ctx):
         E.rebuild = (lambda p=p, nm=E.name: H.Eq(nm, *H.build_solovev(p, scribble_inputs=True), p))
         eqs.append(E)
 
-    n_pts_bundled = 70 if quick else 500
-    n_pts_syn = 30 if quick else 80
+    n_pts_bundled = 52 if quick else 500
+    n_pts_syn = 22 if quick else 80
     cases, meta, fails = [], [], []
     classes, stage_inputs = {}, {"inside": 0, "outside_polygon": 0, "polygon_but_psin_gt_1": 0, "clamped_psin_0": 0,
                                  "zero_inplane_field": 0, "one_inplane_component_zero": 0, "psin_exactly_1_inside_polygon": 0}
@@ -146,8 +150,10 @@ def run(ctx):
     audit_counts = {"history_re_evaluations": 0, "direct_helper_class_comparisons": 0, "attribute_comparisons": 0,
                     "unit_basis_vector_comparisons": 0}
     pip_cases, interp_cases, interp_meta, policy_observed = {}, [], [], {}
+    cubic_cases, cubic_meta = [], []
+    cubic_every = 2 if quick else 3
     n_pip_skipped = 0
-    interp_every = 10 if quick else 5
+    interp_every = 14 if quick else 5
     for ei, E in enumerate(eqs):
         n_pts = n_pts_bundled if E.params is None else n_pts_syn
         pts = H.sample_points(E, rng, n_pts)
@@ -252,6 +258,12 @@ def run(ctx):
                         qlit(E.psi_axis), qlit(E.psi_lcfs), qlist(ws), qlist(gpsi), qlist(gdr), qlist(gdz), qlit(o["psi"]), qlit(o["psin"]),
                         qlit(tolp), qlit(o["dr"]), qlit(o["dz"])))
                     interp_meta.append(dict(info, nodes=nodes, weights=ws))
+            if o["inside"] and pi % cubic_every == 0:
+                for pr, val in ((PS.scalar, o["prof"]), (PS.vt, o["vt"]), (PS.vp, o["vp"]), (PS.vn, o["vn"])):
+                    if pr.kind == "array" and pr.xmin <= o["psin"] <= pr.xmax:
+                        cubic_cases.append("check_cubic %s %s %s %s" % (qlist([float(v) for v in pr.desc["x"]]),
+                                                                     qlist([float(v) for v in pr.desc["y"]]), qlit(o["psin"]), qlit(val)))
+                        cubic_meta.append({"equilibrium": E.name, "profile": pr.desc, "psi_n": o["psin"], "implementation": val})
             if o["inside"]:
                 for nm, val in (("toroidal", o["vt"]), ("poloidal", o["vp"]), ("normal", o["vn"])):
                     zero_points[nm] += (val == 0.0)
@@ -306,7 +318,7 @@ def run(ctx):
 
     # ---- derivative grids at nodes -----------------------------------------------------------------
     grad_cases, grad_meta = [], []
-    n_nodes = 6 if quick else 30
+    n_nodes = 5 if quick else 30
     for E in eqs:
         nr, nz = len(E.r), len(E.z)
         picks = [(0, 0), (nr - 1, nz - 1), (0, rng.randrange(nz)), (rng.randrange(nr), nz - 1)]
@@ -315,26 +327,29 @@ def run(ctx):
             ri, zj = float(E.r[i]), float(E.z[j])
             ctx.crumb({"equilibrium": E.describe(), "node": [i, j]})
             vr, vz = float(E.dpsidr(ri, zj)), float(E.dpsidz(ri, zj))
-            grad_cases.append("check_grad %s %s %d%%nat %s" % (qlist(E.r), qlist(E.psi_grid[:, j]), i, qlit(vr)))
+            grad_cases.append("check_grad axis_r_%d %s %d%%nat %s" % (eqs.index(E), qlist(E.psi_grid[:, j]), i, qlit(vr)))
             grad_meta.append({"equilibrium": E.name, "axis": "r", "node": [i, j], "implementation": vr})
-            grad_cases.append("check_grad %s %s %d%%nat %s" % (qlist(E.z), qlist(E.psi_grid[i, :]), j, qlit(vz)))
+            grad_cases.append("check_grad axis_z_%d %s %d%%nat %s" % (eqs.index(E), qlist(E.psi_grid[i, :]), j, qlit(vz)))
             grad_meta.append({"equilibrium": E.name, "axis": "z", "node": [i, j], "implementation": vz})
 
     ctx.log("implementation evaluated: %d point cases, %d gradient node values" % (len(cases), len(grad_cases)))
     # ---- Coq: run the model on every case ----------------------------------------------------------
     files = []
-    per = 25 if quick else 50
+    per = 32 if quick else 50
     for si in range(0, len(cases), per):
         sh = cases[si:si + per]
-        txt = ("Require Import Cherab.Common.Qx Cherab.Model.C12_Equilibrium Cherab.Model.C12_Check.\n"
-               "Open Scope Q_scope.\nDefinition results : list Z := [\n  " + ";\n  ".join(sh) +
-               "].\nEval vm_compute in results.\n")
+        txt = ("Require Import Cherab.Common.Qx Cherab.Model.C12_Equilibrium Cherab.Model.C12_Check Cherab.Model.C12_Exact.\n"
+               "Open Scope Q_scope.\nDefinition cases : list case := [\n  " + ";\n  ".join(sh) +
+               "].\nEval vm_compute in (map check_case cases).\nEval vm_compute in (map check_exact cases).\n")
         files.append((ctx.write_gen("cases_%03d.v" % (si // per), txt), list(range(si, si + len(sh))), "case"))
     gper = 40 if quick else 24
     for si in range(0, len(grad_cases), gper):
         sh = grad_cases[si:si + gper]
+        used = sorted({int(t.split()[1].split("_")[2]) for t in sh})
+        axes = "".join("Definition axis_r_%d : list Q := %s.\nDefinition axis_z_%d : list Q := %s.\n" % (
+            k_, qlist(eqs[k_].r), k_, qlist(eqs[k_].z)) for k_ in used)
         txt = ("Require Import Cherab.Common.Qx Cherab.Model.C12_Gradient Cherab.Model.C12_Check.\n"
-               "Open Scope Q_scope.\nDefinition results : list bool := [\n  " + ";\n  ".join(sh) +
+               "Open Scope Q_scope.\n" + axes + "Definition results : list bool := [\n  " + ";\n  ".join(sh) +
                "].\nEval vm_compute in (failing results).\n")
         files.append((ctx.write_gen("grad_%03d.v" % (si // gper), txt), list(range(si, si + len(sh))), "grad"))
     # interpolation weights: sum to one, reproduce psi and both d psi values, code order of psi_n = model
@@ -345,6 +360,13 @@ def run(ctx):
                "Open Scope Q_scope.\nDefinition results : list bool := [\n  " + ";\n  ".join(sh) +
                "].\nEval vm_compute in (failing results).\n")
         files.append((ctx.write_gen("interp_%03d.v" % (si // iper), txt), list(range(si, si + len(sh))), "interp"))
+    # 2xN array profiles: the running Interpolator1DArray against the model's cubic evaluated by Coq
+    cper = 120 if quick else 150
+    for si in range(0, len(cubic_cases), cper):
+        sh = cubic_cases[si:si + cper]
+        txt = ("Require Import Cherab.Common.Qx Cherab.Model.C12_Cubic.\nOpen Scope Q_scope.\n"
+               "Definition results : list bool := [\n  " + ";\n  ".join(sh) + "].\nEval vm_compute in (failing results).\n")
+        files.append((ctx.write_gen("cubic_%03d.v" % (si // cper), txt), list(range(si, si + len(sh))), "cubic"))
     # polygon part of the LCFS mask against the even-odd test evaluated by Coq, one file (or more) per equilibrium
     groups = 4 if quick else 10
     for gi_ in range(groups):
@@ -379,15 +401,24 @@ def run(ctx):
             ctx.log("coqc on %s ended without a result (killed?); retrying" % os.path.basename(f))
             res[f] = coqc(f, timeout=1800)
     diffs, n_amb = [], 0
-    other_diffs = {"grad": [], "interp": [], "pip": [], "policy": []}
+    exact_diffs, exact_hist, n_exact_ok = [], {}, 0
+    other_diffs = {"grad": [], "interp": [], "pip": [], "policy": [], "cubic": []}
     stage_hist = {}
     for f, ids, kind in files:
         ok, out = res[f]
         vals = parse_evals(out) if ok else []
-        good = ok and len(vals) == 1
+        good = ok and len(vals) == (2 if kind == "case" else 1)
         codes = parse_zlist(vals[0]) if good else []
         if kind == "case":
             good = good and len(codes) == len(ids)
+            xcodes = parse_zlist(vals[1]) if good else []
+            xbad = [(ids[i], c) for i, c in enumerate(xcodes) if c != 0 and codes[i] == 0]
+            for _, c in xbad:
+                exact_hist[str(c)] = exact_hist.get(str(c), 0) + 1
+            n_exact_ok += sum(1 for i, c in enumerate(xcodes) if c == 0)
+            ctx.obligation("exact binary64 replay %s (%d cases)" % (os.path.basename(f), len(ids)), "correspondence",
+                           good and not xbad, out if not good else "DIFF (case, first stage not bitwise equal): %s" % xbad[:20])
+            exact_diffs += xbad
             bad = [(ids[i], c) for i, c in enumerate(codes) if c not in (0, -1)] if good else []
             n_amb += sum(1 for c in codes if c == -1)
             for _, c in bad:
@@ -398,7 +429,8 @@ def run(ctx):
         else:
             bad = [ids[i] for i in codes] if good else []
             label = {"grad": "gradient grids %s (%d node values)", "interp": "interpolation weights %s (%d points)",
-                     "pip": "polygon mask vs even-odd test %s (%d points)", "policy": "profile argument policy %s (%d forms)"}[kind]
+                     "pip": "polygon mask vs even-odd test %s (%d points)",
+                     "cubic": "2xN profile arrays vs the model's 1-D cubic %s (%d values)", "policy": "profile argument policy %s (%d forms)"}[kind]
             ctx.obligation(label % (os.path.basename(f), len(ids)), "correspondence",
                            good and not bad, out if not good else "DIFF at %s" % bad[:20])
             other_diffs[kind] += bad
@@ -425,7 +457,7 @@ def run(ctx):
         ctx.violation(key, f["clause"], f, found=True)
         if len(seen) >= 6:
             break
-    any_other = other_diffs["interp"] or other_diffs["pip"] or other_diffs["policy"]
+    any_other = other_diffs["interp"] or other_diffs["pip"] or other_diffs["policy"] or other_diffs["cubic"] or exact_diffs
     if any_other and not fails:
         for gi in other_diffs["interp"][:2]:
             ctx.violation("c12-diff:interpolation-weights", "interpolation weights do not sum to one / do not reproduce psi, d psi or the "
@@ -433,6 +465,12 @@ def run(ctx):
         for (ei, t) in other_diffs["pip"][:2]:
             ctx.violation("c12-diff:polygon", "polygon mask differs from the even-odd test evaluated by Coq; the executable property found no "
                           "failing input", {"equilibrium": eqs[ei].describe(), "case": pip_cases[ei][t]}, found=False)
+        for gi in other_diffs["cubic"][:2]:
+            ctx.violation("c12-diff:cubic-profile", "value of a 2xN array profile differs from the model's 1-D cubic interpolant; the "
+                          "executable property found no failing input", {"case": cubic_meta[gi]}, found=False)
+        for ci, code in exact_diffs[:2]:
+            ctx.violation("c12-diff:exact-replay", "binary64 replay of the vector arithmetic is not bitwise equal at stage '%s'; the "
+                          "executable property found no failing input" % STAGES.get(code, code), {"case": meta[ci]}, found=False)
         for f_ in other_diffs["policy"][:2]:
             ctx.violation("c12-diff:policy", "outcome for a profile argument (%s) differs from the model's policy" % f_,
                           {"form": f_, "observed_codes": policy_observed[f_]}, found=False)
@@ -472,7 +510,8 @@ def run(ctx):
                          "ambiguous_psin_within_tolerance_of_1": n_amb, "gradient_node_values": len(grad_cases),
                          "search_points": n_search, "interpolation_weight_probes": len(interp_cases),
                          "polygon_points_compared_in_coq": sum(len(v) for v in pip_cases.values()), "polygon_points_skipped_near_edge": n_pip_skipped,
-                         "policy_forms": pol_forms, "points_where_scalar_and_vector_mapper_radius_differ": n_radius_split, "points_where_the_implementation_raised": n_errors, "disagreeing_stage_histogram": stage_hist},
+                         "policy_forms": pol_forms, "array_profile_values_compared_with_the_cubic_model": len(cubic_cases),
+                         "cases_bitwise_equal_in_the_binary64_replay": n_exact_ok, "binary64_replay_mismatch_histogram": exact_hist, "points_where_scalar_and_vector_mapper_radius_differ": n_radius_split, "points_where_the_implementation_raised": n_errors, "disagreeing_stage_histogram": stage_hist},
         "tolerance": {"psi_n": "2^-40 + 2^-38 (|psi|+|psi_axis|+|psi_lcfs|)/|psi_lcfs-psi_axis| (absolute)",
                       "inside_lcfs, toroidal_vector, map2d, map3d": "exact",
                       "b_field, poloidal_vector, surface_normal": "2^-40 relative to the largest component",
@@ -488,6 +527,9 @@ def run(ctx):
                       "2^-38 max|node value|; code-order psi_n (normalise nodes, weighted sum, clamp) = psi_normalised to the psi_n tolerance",
                       "polygon mask vs even-odd test evaluated by Coq": "exact (points closer than 1e-7 to an edge skipped and counted)",
                       "profile argument policy (model outcome vs every observed outcome of 7 entry points)": "exact (accepted / IndexError / ValueError)",
+                      "binary64 replay (b_field, poloidal_vector, surface_normal, map_vector2d, map_vector3d given the upstream doubles and "
+                      "libm's sqrt/cos/sin; sqrt checked to be correctly rounded)": "exact, bit for bit (every case that passes the staged comparison)",
+                      "2xN array profile values vs Model/C07_Cubic cubic1 evaluated by Coq": "2^-40 max|values|",
                       "source tie": "exact (kernel-checked lemma source_ok src = true on the regenerated record)",
                       "search": "1e-9 on dot products / lengths / components; inside_lcfs and outside values exact; points closer "
                                 "than 1e-7 to a polygon edge or with |psi_n - 1| < 1e-9 undecided; normal vs grad(psi): 0.15 rad"},
